@@ -270,6 +270,7 @@ var (
 	errInvalidSrcAddrForTransit      = errors.New("invalid source address for transit pkt")
 	errInvalidDstAddr                = errors.New("invalid destination address")
 	errInvalidSrcAddr                = errors.New("invalid source address")
+	errHdrLenMismatch                = errors.New("header length inconsistent with address and path")
 	errCannotRoute                   = errors.New("cannot route, dropping pkt")
 	errEmptyValue                    = errors.New("empty value")
 	errMalformedPath                 = errors.New("malformed path content")
@@ -1028,6 +1029,14 @@ func (p *scionPacketProcessor) processPkt(pkt *Packet) disposition {
 	p.lastLayer, err = decodeLayers(pkt.RawPacket, &p.scionLayer, &p.hbhLayer, &p.e2eLayer)
 	if err != nil {
 		return errorDiscard("error", err)
+	}
+
+	// The path must fill the header exactly. The decoders accept a header that is longer than its
+	// content; forwarding such a packet (or rewriting its header in place, as done for one-hop
+	// paths) would emit a packet whose HdrLen does not describe it.
+	if slayers.CmnHdrLen+p.scionLayer.AddrHdrLen()+p.scionLayer.Path.Len() !=
+		int(p.scionLayer.HdrLen)*slayers.LineLen {
+		return errorDiscard("error", errHdrLenMismatch)
 	}
 
 	pld := p.lastLayer.LayerPayload()
